@@ -3,6 +3,7 @@ import ast
 from ..common import calls_in, norm, DF, DFC, LOD, kw
 from ..model import AnalysisError, body_nodes
 from ..dataflow import defs_reaching
+from ..facts import facts_at
 from ..guards import lower_bound
 from .shared import grd_empty, idx1, yields_of, row_index_of, enclosing_loop
 from ..pattern import pmatch, pstmt, text, alpha, dump, find
@@ -400,10 +401,56 @@ def check(ctx):
             if cs and srcs == {BY} and any("reversed(" in v or "[::-1]" in v for v in vals) \
                     and all(("reversed(" in v or "[::-1]" in v) or v == norm(x["target"]) or " if " in v for v, x in zip(vals, [y for y in cs if y["value"] is not None])):
                 swapped = True
+            # the swapped pairs are indexed again (x[0] / x[1] in _split_join_by): they must be sequences, not iterators
+            lazy = []
+            for x in cs:
+                v = x["value"]
+                if v is None:
+                    continue
+                for leaf, _f in __import__("sa.forms", fromlist=["split_ifexp"]).split_ifexp(v):
+                    if isinstance(leaf, ast.Call) and isinstance(leaf.func, ast.Name) and leaf.func.id in ("reversed", "map", "iter", "zip", "filter"):
+                        lazy.append(leaf)
+            if swapped and lazy:
+                ctx.ob("SIB-6", fj, f"{norm(lazy[0])} handed on as a by-pair", lazy[0], False,
+                       f"the swapped pair is the iterator {norm(lazy[0])}: _split_join_by indexes a pair with x[0] / x[1], which an iterator "
+                       f"does not support -- every full_join with differently named keys raises TypeError",
+                       clause="key columns may be named differently on the two sides")
         ctx.ob("SIB-6", fj, text(c), c, okr and swapped,
                "reverse join receives the by-tuples with left/right swapped" if (okr and swapped) else
                f"reverse join {text(c)} swaps the operands but reuses the by-tuples unswapped: renamed keys are looked up on the wrong side",
                clause="key columns may be named differently on the two sides")
+    # the shortcut that skips the reverse part is taken only when no right row is left over
+    all_rets = [n for n in body_nodes(fj.node) if isinstance(n, ast.Return)]
+    B_ = text(env["_B"])
+    EMPTY = {("T", f"{B_}.nrow == 0"), ("T", f"0 == {B_}.nrow"), ("T", f"{B_}.nrow < 1"), ("F", f"{B_}.nrow"), ("F", f"{B_}.nrow > 0"),
+             ("F", f"{B_}.nrow >= 1"), ("F", f"{B_}.nrow != 0"), ("T", f"{B_}.nrow <= 0")}
+    ba_names = set()
+    for c in rev:
+        st_ = fj.module.parent.get(c)
+        if isinstance(st_, ast.Assign) and isinstance(st_.targets[0], ast.Name):
+            ba_names.add(st_.targets[0].id)
+
+    def mentions_reverse(expr, at, depth=3):
+        for nm in [m for m in ast.walk(expr) if isinstance(m, ast.Name)]:
+            if nm.id in ba_names:
+                return True
+            if depth:
+                for d in defs_reaching(fj, nm.id, at):
+                    if d.kind == "assign" and d.value is not None and d.node is not None and mentions_reverse(d.value, d.node.ast, depth - 1):
+                        return True
+        return False
+    for r_ in all_rets:
+        if r_.value is None or mentions_reverse(r_.value, r_):
+            continue
+        fr = facts_at(fj, r_)
+        about_b = [(k, t) for k, t in fr if f"{B_}.nrow" in t or f"len({B_})" in t]
+        if not about_b:
+            continue
+        okb = any(x in EMPTY for x in about_b)
+        ctx.ob("SIB-6", fj, f"shortcut {text(r_)[:60]} under {about_b}", r_, okb,
+               "the reverse part is skipped only when every right row has been joined" if okb else
+               f"full_join returns the left join alone under {about_b}, i.e. also when right rows are still left over: those rows are "
+               f"missing from the result", clause="full_join contains every left row and every right row at least once")
     ren = [n for n in ast.walk(fj.node) if isinstance(n, ast.Assign) and isinstance(n.targets[0], ast.Subscript)
            and isinstance(n.value, ast.Call) and isinstance(n.value.func, ast.Attribute) and n.value.func.attr == "pop"]
     ok = bool(ren) and all(pmatch("_X[0]", n.targets[0].slice) is not None and n.value.args and pmatch("_X[1]", n.value.args[0], {"_X": pmatch("_X[0]", n.targets[0].slice)["_X"]}) is not None
